@@ -100,7 +100,19 @@ func netMetas(g Dag) []string {
 			if n.PIn == "@" {
 				out = append(out, n.Name+"@feeder:psrc:0:"+strings.Join(n.PVals, ","))
 			}
-			out = append(out, fmt.Sprintf("%s:proc:%d:", n.Name, len(n.Ins)))
+			takes := ""
+			for _, u := range n.Ins {
+				if strings.HasSuffix(u, "#aux") {
+					takes += "x"
+				} else {
+					takes += "o"
+				}
+			}
+			aux := "0"
+			if n.Aux {
+				aux = "1"
+			}
+			out = append(out, fmt.Sprintf("%s:proc:%d::%s:%s", n.Name, len(n.Ins), takes, aux))
 		}
 	}
 	return out
@@ -110,11 +122,6 @@ func netMetas(g Dag) []string {
 // a schedule of its own; Props/C04 proves that every schedule yields the zip-semantics streams)
 func netValues(ctx *Ctx, c c04Case, dir string, balanced bool) {
 	names, ins, src, ok := netEncode(c.Dag)
-	for _, n := range c.Dag.Nodes {
-		if n.Aux {
-			ok = false // the model's tasks have one output
-		}
-	}
 	if !ok {
 		ctx.Res.Count("net-values=not-covered")
 		return
@@ -150,7 +157,7 @@ func netValues(ctx *Ctx, c c04Case, dir string, balanced bool) {
 	}
 	if balanced {
 		for p := range listFiles(dir) {
-			if _, ok := want[p]; strings.HasSuffix(p, ".o") && !ok {
+			if _, ok := want[p]; (strings.HasSuffix(p, ".o") || strings.HasSuffix(p, ".x")) && !ok {
 				ctx.Res.Disagree(Violation{What: fmt.Sprintf("the real run wrote %s, which no schedule of the network model with values produces", p), Class: "c04.netval", Witness: c})
 			}
 		}
